@@ -26,10 +26,11 @@ VARIABLES plan,   \* sequence of probes [r, when, at]
           bad,    \* violations predicted so far: <<inv, r, inst, nth>>
           fin     \* behaviour complete
 
+VARIABLE second   \* afterwards the same executor is given a second task (launch, kill): it must go on working
 VARIABLE down     \* the agent refuses the executor's UPDATE calls (a fault the model does not depend on)
 VARIABLE usr      \* the task has a `user` configured (TaskCommandInfo.user): a configuration the model does not depend on
 
-gvars == <<vars, plan, deep, tmo, usr, down, pi, hist, bad, fin>>
+gvars == <<vars, plan, deep, tmo, usr, down, second, pi, hist, bad, fin>>
 
 Rank(w) == CASE w \in {"launching", "starting"} -> 0
              [] w \in {"nochild", "polling"} -> 1
@@ -170,24 +171,27 @@ GenInit ==
                  /\ (kind # "ctl" \/ (~deep /\ beh \in {"sleep", "fork"})) THEN BOOLEAN ELSE {FALSE})
   \* a request for a task whose terminal status the loop has processed, also with an agent that refuses the update
   /\ down \in (IF ~deep /\ \E j \in 1..Len(plan) : plan[j].when = "gone" THEN BOOLEAN ELSE {FALSE})
+  \* after a request for a task that is gone (controllable: its terminal status processed; basic / hook: killed)
+  /\ second = (\/ kind = "ctl" /\ ~deep /\ ~down /\ \E j \in 1..Len(plan) : plan[j].when = "gone"
+               \/ kind # "ctl" /\ ~hold /\ Len(plan) = 2 /\ plan[1].r = "Kill" /\ plan[2].at = "calm" /\ plan[1].when = plan[2].when)
   /\ pi = 1 /\ hist = <<>> /\ bad = {} /\ fin = FALSE
 
 GenStep ==
   /\ ~fin
   /\ LET c == Choice(S) IN
      IF c.a = "none" \/ c.succ = {}
-       THEN fin' = TRUE /\ UNCHANGED <<vars, plan, deep, tmo, usr, down, pi, hist, bad>>
+       THEN fin' = TRUE /\ UNCHANGED <<vars, plan, deep, tmo, usr, down, second, pi, hist, bad>>
        ELSE \E t \in c.succ :
               /\ Set(t)
               /\ hist' = Append(hist, [a |-> IF c.a = "Probe" THEN "Req" ELSE c.a, r |-> c.r])
               /\ pi' = IF c.a = "Probe" THEN pi + 1 ELSE pi
               /\ bad' = bad \cup ViolOf(t)
-              /\ UNCHANGED <<plan, deep, tmo, usr, down, fin>>
+              /\ UNCHANGED <<plan, deep, tmo, usr, down, second, fin>>
 
 GenSpec == GenInit /\ [][GenStep]_gvars
 
 Complete == fin /\ pi > Len(plan)
 PrintScn ==
-  Complete => PrintT(<<"SCN", [kind |-> kind, beh |-> beh, hold |-> hold, deep |-> deep, usr |-> usr, down |-> down, plan |-> plan,
+  Complete => PrintT(<<"SCN", [kind |-> kind, beh |-> beh, hold |-> hold, deep |-> deep, usr |-> usr, down |-> down, second |-> second, plan |-> plan,
                                hist |-> hist, bad |-> bad, exec |-> exec, sent |-> sent]>>)
 =============================================================================
